@@ -131,7 +131,7 @@ type Case struct {
 	RetryLimit  int         `json:"retry_limit,omitempty"`
 	Ctx         CtxSpec     `json:"ctx,omitempty"`
 	Ref         RefSpec     `json:"ref,omitempty"`
-	Pre         string      `json:"pre,omitempty"`   // "" empty destination | same-blob: the destination already holds the blob
+	Pre         string      `json:"pre,omitempty"`   // "" empty destination | same-blob: the destination already holds the stream's blob | named-blob: it holds the blob the declared digest names | damaged: (layout) the file under the blob's digest holds wrong bytes of the same length
 	Again       int         `json:"again,omitempty"` // 0 one upload | 1 the same blob is uploaded a second time | 2 a second, different blob follows (same client)
 	Len2        int         `json:"len2,omitempty"`  // Again == 2: length of the second blob
 	Entry       string      `json:"entry,omitempty"` // "" BlobPut | copy-layout | copy-reg | copy-repo: RegClient.BlobCopy from a layout / another registry / another repository of the destination registry
@@ -1122,6 +1122,30 @@ func (e *env) onePut(idx int, seed uint64, length int, ev *evid.Collector) putOu
 			rs.h.Repo(pfx + otherRepo).Blobs[f.trueDig] = append([]byte{}, f.data...)
 			rs.m.Unlock()
 			e.preseed = true
+		}
+		switch {
+		case c.Pre == "named-blob" && f.declDig != "" && cf.entry == "put" && (!cf.isReg || !f.contra || c.Feat.MountStatus != 201):
+			// the destination already holds the blob B the DECLARED digest names; the stream is B itself or another blob
+			if err := e.preload(f.declDig, f.named); err != nil {
+				out.v = &evid.Violation{Sig: "harness-setup", Msg: err.Error()}
+				return out
+			}
+			out.classes = append(out.classes, "pre:named-blob")
+			if f.contra {
+				out.classes = append(out.classes, "pre:declared-blob-present-stream-differs")
+				if f.declSize == int64(len(f.named)) && f.declSize > 0 {
+					out.classes = append(out.classes, "pre:declared-blob-present-same-size-stream-differs")
+				}
+			}
+		case c.Pre == "damaged" && !cf.isReg && cf.entry == "put" && len(f.full) > 0 && !f.srcFails:
+			// another tool left wrong bytes of the right length under the blob's digest name
+			bad := append([]byte{}, f.full...)
+			bad[len(bad)/2] ^= 0x20
+			if err := e.preload(f.fullDig, bad); err != nil {
+				out.v = &evid.Violation{Sig: "harness-setup", Msg: err.Error()}
+				return out
+			}
+			out.classes = append(out.classes, "pre:damaged-file-same-length")
 		}
 		if c.Pre == "same-blob" && mayExist && !f.srcFails {
 			if err := e.preload(f.fullDig, f.full); err != nil {
